@@ -29,17 +29,17 @@ const (
 )
 
 type hval struct {
-	k      hkind
-	b      bool
-	z      int64   // int, long, date (ms), ref
-	bits   uint64  // double
-	s      string  // string
-	bin    []byte  // binary
-	typed  bool    // list/map carries a type
-	ty     string  // list/map type, class name
-	items  []*hval // list items, object field values, map: k0 v0 k1 v1 ...
-	fnames []string
-	ord    int // ordinal of this list/map/object among the openings of the stream
+	k       hkind
+	b       bool
+	z       int64   // int, long, date (ms), ref
+	bits    uint64  // double
+	s       string  // string
+	bin     []byte  // binary
+	typed   bool    // list/map carries a type
+	ty      string  // list/map type, class name
+	items   []*hval // list items, object field values, map: k0 v0 k1 v1 ...
+	fnames  []string
+	ord     int  // ordinal of this list/map/object among the openings of the stream
 	compact bool // a date read from the compact form x4b
 }
 
@@ -98,7 +98,9 @@ func ube(b []byte) int64 {
 func isIntTag(t byte) bool    { return t >= 0x80 && t <= 0xd7 || t == 'I' }
 func isLongTag(t byte) bool   { return t >= 0xd8 || t >= 0x38 && t <= 0x3f || t == 0x59 || t == 'L' }
 func isStringTag(t byte) bool { return t <= 0x1f || t >= 0x30 && t <= 0x33 || t == 'S' || t == 'R' }
-func isBinaryTag(t byte) bool { return t >= 0x20 && t <= 0x2f || t >= 0x34 && t <= 0x37 || t == 'B' || t == 'A' }
+func isBinaryTag(t byte) bool {
+	return t >= 0x20 && t <= 0x2f || t >= 0x34 && t <= 0x37 || t == 'B' || t == 'A'
+}
 
 func (p *hparser) parseInt(t byte) int64 {
 	switch {
